@@ -12,6 +12,8 @@ REPLAYS = os.environ.get('VERIF_REPLAYS', os.path.join(VERIF, 'replays'))
 EVIDENCE = os.environ.get('VERIF_EVIDENCE', os.path.join(VERIF, 'evidence'))
 CC, CXX = 'clang', 'clang++'
 TRAPS = ['malloc', 'free', 'realloc', 'calloc', 'strdup', 'aligned_alloc', 'posix_memalign']
+# libc facilities that keep hidden per-process state (C17): a call from library code is trapped when it executes
+TRAPS_MT = ['gmtime', 'localtime', 'ctime', 'asctime', 'strtok', 'rand', 'srand', 'random', 'srandom', 'drand48', 'lrand48', 'mrand48', 'setlocale', 'strerror', 'tmpnam', 'ecvt', 'fcvt', 'strsignal', 'setenv', 'putenv', 'unsetenv', 'getpwnam', 'getpwuid', 'ttyname', 'basename', 'dirname', 'nl_langinfo', 'localeconv', 'wcstombs', 'mbstowcs', 'mblen', 'mbtowc', 'wctomb']
 
 def log(*a):
     print(*a, file=sys.stderr, flush=True)
@@ -121,7 +123,7 @@ def build(flavour, L=None):
     if jobs:
         compile_many(jobs)
         redef = []
-        for t in TRAPS: redef += ['--redefine-sym', '%s=__sim_trap_%s' % (t, t)]
+        for t in TRAPS + TRAPS_MT: redef += ['--redefine-sym', '%s=__sim_trap_%s' % (t, t)]
         for _, o in jobs:
             r = sh(['objcopy'] + redef + [o + '.tmp.o', o])
             if r.returncode != 0: raise SystemExit(harness_fault('objcopy failed: ' + r.stderr))
@@ -531,7 +533,7 @@ def run_property(prop, tier, seed):
                         res = fut.result()
                         viols, done, inflight = parse_worker(res)
                         for v in viols:
-                            cands.append(dict(cls=v['cls'], detail=v['detail'], plan=v['plan'], exe=exe, kind='oracle', wrapper=wrapper))
+                            cands.append(dict(cls=v['cls'], detail=v['detail'], plan=v['plan'], exe=exe, kind='oracle', wrapper=wrapper, ctx=dict(a=a, idx=v['plan'].get('idx', a), tier=tier, seed=seed)))
                         if done:
                             total['runs'] += done['runs']; ph_runs += done['runs']; total['nontrivial'] += done['nontrivial']; total['foreign'] += done['foreign']
                             total['sim_time'] += done.get('sim_time', 0); total['digest'] ^= done.get('digest', 0)
@@ -576,13 +578,16 @@ def run_property(prop, tier, seed):
                 # sanitizer reports can depend on what the process did before the run (TSan keeps a bounded, pseudo-randomly evicted
                 # access history): replay the run inside the same process context - the chunk it was found in - twice
                 for c in group[:2]:
-                    if c['kind'] != 'crash': continue
                     x = c['ctx']; got = []
                     for _ in range(2):
                         res = run_chunk(c['exe'], prop, x['seed'], x['a'], x['idx'] + 1, x['tier'], tmpdir, 'ctx')
                         v, d, infl = parse_worker(res)
-                        k, det, _in = classify_crash(prop, res['rc'], res['err'], infl[1] if infl else None)
-                        got.append((infl[0] if infl else None, k))
+                        if c['kind'] == 'crash':
+                            k, det, _in = classify_crash(prop, res['rc'], res['err'], infl[1] if infl else None)
+                            got.append((infl[0] if infl else None, k))
+                        else:
+                            hit = [vv for vv in v if vv['plan'].get('idx') == x['idx'] and vv['cls'] == cls]
+                            got.append((x['idx'], cls) if hit else (None, None))
                     if got[0] == got[1] == (x['idx'], cls):
                         confirmed = ('context', c, dict(cls=cls, detail=c['detail'], in_lib=True)); break
             if not confirmed:
@@ -666,8 +671,11 @@ def cmd_replay(path):
             v, d, infl = parse_worker(res)
             if d is not None and not v: r = dict(ok=True, cls=None, detail='', digest=d.get('digest'))
             else:
-                k, det, _in = classify_crash(prop, res['rc'], res['err'], infl[1] if infl else None)
-                r = dict(ok=False, cls=k, detail=det, digest=None)
+                hit = [vv for vv in v if vv['plan'].get('idx') == x['idx']]
+                if hit: r = dict(ok=False, cls=hit[0]['cls'], detail=hit[0]['detail'], digest=None)
+                else:
+                    k, det, _in = classify_crash(prop, res['rc'], res['err'], infl[1] if infl else None)
+                    r = dict(ok=False, cls=k, detail=det, digest=None)
         else:
             r = replay_plan(exe, plan, tmpdir, wrapper=doc.get('wrapper'))
     finally:
